@@ -29,6 +29,7 @@ type LoopSpec struct {
 }
 
 type AssertSpec struct {
+	After    bool // evaluated after the anchored statement (at the last variable reference of its line)
 	Optional bool
 	Ghost  string
 	Anchor string
@@ -451,10 +452,15 @@ func (c *Contract) addClause(kw, rest, path string, line int) error {
 		// assert at "anchor" expr      - the anchor must occur in the function
 		// assert at* "anchor" expr     - for every line that contains the anchor, if any (a discipline on
 		//                                 statements of a certain shape, e.g. every direct Read of a connection)
-		optional := false
+		// assert after "anchor" expr   - evaluated after the anchored assignment: names denote the new values
+		optional, after := false, false
 		if strings.HasPrefix(rest, "at* ") {
 			optional = true
 			rest = "at " + rest[4:]
+		}
+		if strings.HasPrefix(rest, "after ") {
+			after = true
+			rest = "at " + rest[6:]
 		}
 		if !strings.HasPrefix(rest, "at ") {
 			return fmt.Errorf("assert at \"anchor\" expr")
@@ -475,7 +481,7 @@ func (c *Contract) addClause(kw, rest, path string, line int) error {
 		if cl.Label == "" {
 			cl.Label = fmt.Sprintf("a%d", len(c.Asserts)+1)
 		}
-		c.Asserts = append(c.Asserts, AssertSpec{Anchor: anchor, C: cl, Assume: kw == "assume", Optional: optional})
+		c.Asserts = append(c.Asserts, AssertSpec{Anchor: anchor, C: cl, Assume: kw == "assume", Optional: optional, After: after})
 	case "callsite":
 		// callsite "F" label: expr - at every call to F in this function expr holds; arg0, arg1, ... are
 		// the call's arguments (the receiver first for methods, excluded for interface calls)
